@@ -110,10 +110,11 @@ func (u *User) iteratePaths(cleanPath, permissionType string) (bool, error) {
 		var regexStr string
 		var negate bool
 
-		splitted := strings.Split(permission, ":")
-		if len(splitted) > 1 {
-			typeStr = splitted[0]
-			permission = strings.Join(splitted[1:], ":")
+		// Only a plain lower case word in front of the first ':' is a permission
+		// type. Any other ':' is part of the regex itself (e.g. [[:alpha:]]).
+		if i := strings.Index(permission, ":"); i > 0 && isPermissionType(permission[:i]) {
+			typeStr = permission[:i]
+			permission = permission[i+1:]
 		}
 
 		dlog.Server.Debug(u, cleanPath, typeStr, permission)
@@ -145,4 +146,13 @@ func (u *User) iteratePaths(cleanPath, permissionType string) (bool, error) {
 	}
 
 	return hasPermission, nil
+}
+
+func isPermissionType(s string) bool {
+	for i := 0; i < len(s); i++ {
+		if s[i] < 'a' || s[i] > 'z' {
+			return false
+		}
+	}
+	return len(s) > 0
 }
